@@ -160,6 +160,24 @@ def h_convert(eng, u, w):
             eng.prove(True, "convert:incompatible-raises")
         else:
             eng.fail("convert:incompatible-accepted")
+        # in-place conversion of a measurement whose accessors have been read before: value,
+        # error and rel describe the object as it is now
+        nv = slope * v + inter
+        if eng.symbolic:
+            eng.assume(Not(Eq(v, 0)))
+            eng.assume(Not(Eq(nv, 0)))
+        elif v == 0 or nv == 0:
+            return
+        mi = ureg.Measurement(v, e, u)
+        before = (mi.rel, mi.value.magnitude, mi.error.magnitude)
+        _close(eng, before[0], abs(e / v), "ito:rel-before")
+        mi.ito(w)
+        eng.prove(str(mi.units) == w, "ito:units")
+        _close(eng, mi.value.magnitude, nv, "ito:value-after")
+        _close(eng, mi.error.magnitude, abs(slope) * e, "ito:error-after")
+        _close(eng, mi.rel, abs(slope) * e / abs(nv), "ito:rel-after-describes-the-converted-object")
+        mi.ito(u)
+        _close(eng, mi.rel, abs(e / v), "ito:rel-after-the-way-back")
 
 
 def h_arith(eng, u, w):
